@@ -27,7 +27,7 @@ const COMP: &str = "memstorage";
 pub struct Cs { v: Vec<u64>, l: Vec<u64>, vo: Vec<u64>, ln: Vec<u64>, al: bool }
 
 #[derive(Clone, Debug, PartialEq)]
-pub struct Ent { ty: u64, term: u64, index: u64, dlen: u64, fill: u64, clen: u64, sync: bool }
+pub struct Ent { ty: u64, term: u64, index: u64, dlen: u64, fill: u64, clen: u64 }
 
 #[derive(Clone, Debug, PartialEq)]
 pub enum Op {
@@ -72,7 +72,7 @@ impl Op {
             Op::Compact(i) => out.extend_from_slice(&[5, *i]),
             Op::Append(es) => {
                 out.push(6); out.push(es.len() as u64);
-                for e in es { out.extend_from_slice(&[e.ty, e.term, e.index, e.dlen, e.fill, e.clen, e.sync as u64]); }
+                for e in es { out.extend_from_slice(&[e.ty, e.term, e.index, e.dlen, e.fill, e.clen]); }
             }
             Op::CommitToConf(i, c) => {
                 out.extend_from_slice(&[7, *i]);
@@ -133,7 +133,6 @@ fn mk_entry(e: &Ent) -> Entry {
     x.index = e.index;
     x.data = vec![e.fill as u8; e.dlen as usize].into();
     x.context = vec![e.fill as u8; e.clen as usize].into();
-    x.sync_log = e.sync;
     x
 }
 
@@ -164,7 +163,7 @@ fn enc_entries_out(es: &[Entry], out: &mut Vec<u64>) {
         out.push(e.data.len() as u64);
         out.push(e.data.iter().map(|b| *b as u64).sum());
         out.push(e.context.len() as u64);
-        out.push(e.sync_log as u64);
+        assert!(!e.sync_log);
     }
 }
 
@@ -464,7 +463,7 @@ impl Exh {
                         let ix = pos + k;
                         let dl = DLENS[((ix * 2 + t + muts.len() as u64) % 5) as usize];
                         Ent { ty: if (ix + t) % 4 == 3 { 1 } else { 0 }, term: t, index: ix, dlen: dl,
-                              fill: 1 + (ix + t) % 7, clen: if ix % 3 == 2 { 2 } else { 0 }, sync: false }
+                              fill: 1 + (ix + t) % 7, clen: if ix % 3 == 2 { 2 } else { 0 } }
                     }).collect();
                     cands.push(Op::Append(es));
                 }
@@ -517,8 +516,7 @@ fn rand_ents(rng: &mut Rng, pos: u64, n: u64, term0: u64, broken: bool) -> Vec<E
         let mut ix = pos.wrapping_add(k);
         if broken && k > 0 && rng.chance(1, 2) { ix = rng.below(pos + n + 3); }
         Ent { ty: if rng.chance(1, 6) { 1 + rng.below(2) } else { 0 }, term: t, index: ix, dlen: rand_dlen(rng),
-              fill: rng.below(256), clen: if rng.chance(1, 5) { 1 + rng.below(200) } else { 0 },
-              sync: rng.chance(1, 30) }
+              fill: rng.below(256), clen: if rng.chance(1, 5) { 1 + rng.below(200) } else { 0 } }
     }).collect()
 }
 
@@ -621,7 +619,7 @@ fn random_case(rng: &mut Rng, len: usize, sh: &mut Shard) {
 
 /// Hand-picked edge cases: u64::MAX indexes, non-contiguous appends, the empty-vector read.
 fn edge_cases(sh: &mut Shard) -> u64 {
-    let e = |ix: u64, t: u64, dl: u64| Ent { ty: 0, term: t, index: ix, dlen: dl, fill: 9, clen: 0, sync: false };
+    let e = |ix: u64, t: u64, dl: u64| Ent { ty: 0, term: t, index: ix, dlen: dl, fill: 9, clen: 0 };
     let m = u64::MAX;
     let cases: Vec<Vec<Op>> = vec![
         vec![Op::QEntries(1, 1, None, false)],
